@@ -631,3 +631,18 @@ impl<VM: VMBinding> RefEnqueue<VM> {
         Self(PhantomData)
     }
 }
+
+/// Verification hook (C06): the contents of the three reference tables, for reporting only.
+#[cfg(mmtk_verif)]
+impl ReferenceProcessors {
+    /// `(references, enqueued_references)` of the soft, weak and phantom processor, in that order.
+    pub fn verif_tables(&self) -> [(Vec<ObjectReference>, Vec<ObjectReference>); 3] {
+        [&self.soft, &self.weak, &self.phantom].map(|p| {
+            let sync = p.sync.lock().unwrap();
+            (
+                sync.references.iter().copied().collect(),
+                sync.enqueued_references.clone(),
+            )
+        })
+    }
+}
